@@ -2,6 +2,7 @@ package rules
 
 import (
 	"fmt"
+	"morlockverif/checker/internal/core"
 	"go/types"
 	"sort"
 	"strings"
@@ -667,4 +668,166 @@ func (m *metaCtx) decides(b *ssa.BasicBlock, repair types.Type) bool {
 func isErrorType(t types.Type) bool {
 	n, ok := t.(*types.Named)
 	return ok && n.Obj().Pkg() == nil && n.Obj().Name() == "error"
+}
+
+// R19-dup: NewPosition refuses a second piece on an occupied square whatever its colour.
+//
+// Decode's cursor can come back to a square it has already filled (unicode digits narrow to negative steps,
+// over-long boards wrap the uint8), so the duplicate test in NewPosition is the only thing between text and
+// two pieces on one square (xor twice: the occupancy bit clears, both piece boards keep the square). An
+// emptiness test that selects what it reads by the new piece's own colour is blind to the other colour.
+// Decided: the branch that rejects a placement reads the all-pieces occupancy, or at least its condition does
+// not depend on the placement's colour.
+func c19Dup(c *Ctx, rule string) {
+	r := c.R
+	np := c.fn(rule, "pkg/board", "", "NewPosition")
+	if np == nil {
+		return
+	}
+	var posT *types.Named
+	if res := np.Signature.Results(); res.Len() > 0 {
+		if pt, ok := res.At(0).Type().(*types.Pointer); ok {
+			posT, _ = pt.Elem().(*types.Named)
+		}
+	}
+	if posT == nil {
+		r.Undecided(rule, "NewPosition result", c.pos(np.Pos()), "", "not a pointer to a named position type")
+		return
+	}
+	st := posT.Underlying().(*types.Struct)
+	var occ *types.Var // the all-pieces occupancy: the struct-typed (rotated) board
+	for i := 0; i < st.NumFields(); i++ {
+		if n, ok := st.Field(i).Type().(*types.Named); ok {
+			if _, isStruct := n.Underlying().(*types.Struct); isStruct {
+				occ = st.Field(i)
+			}
+		}
+	}
+	// transitive field reads of repo functions
+	reads := map[*ssa.Function]map[*types.Var]bool{}
+	var readsOf func(fn *ssa.Function, depth int) map[*types.Var]bool
+	readsOf = func(fn *ssa.Function, depth int) map[*types.Var]bool {
+		if m, ok := reads[fn]; ok {
+			return m
+		}
+		m := map[*types.Var]bool{}
+		reads[fn] = m
+		if fn.Blocks == nil || depth > 6 {
+			return m
+		}
+		for _, b := range fn.Blocks {
+			for _, ins := range b.Instrs {
+				switch x := ins.(type) {
+				case *ssa.FieldAddr:
+					if derefNamed(x.X.Type()) == posT && !onlyStoredTo(x) {
+						m[st.Field(x.Field)] = true
+					}
+				case *ssa.Field:
+					if derefNamed(x.X.Type()) == posT {
+						m[st.Field(x.Field)] = true
+					}
+				case ssa.CallInstruction:
+					if cal := x.Common().StaticCallee(); cal != nil && c.P.IsRepoFunc(cal) {
+						for f := range readsOf(cal, depth+1) {
+							m[f] = true
+						}
+					}
+				}
+			}
+		}
+		return m
+	}
+	n := 0
+	for _, b := range np.Blocks {
+		iff, ok := b.Instrs[len(b.Instrs)-1].(*ssa.If)
+		if !ok {
+			continue
+		}
+		// a rejecting branch: one single-predecessor successor returns a non-nil error
+		rejects := false
+		for _, s := range b.Succs {
+			if len(s.Preds) != 1 {
+				continue
+			}
+			for _, x := range np.Blocks {
+				if !s.Dominates(x) {
+					continue
+				}
+				if ret, ok := x.Instrs[len(x.Instrs)-1].(*ssa.Return); ok {
+					for _, res := range ret.Results {
+						if isErrorType(res.Type()) {
+							if cst, ok := res.(*ssa.Const); !ok || !cst.IsNil() {
+								rejects = true
+							}
+						}
+					}
+				}
+			}
+		}
+		if !rejects {
+			continue
+		}
+		n++
+		fieldsRead := map[*types.Var]bool{}
+		colourDep := false
+		seen := map[ssa.Value]bool{}
+		var walk func(v ssa.Value)
+		walk = func(v ssa.Value) {
+			if v == nil || seen[v] {
+				return
+			}
+			seen[v] = true
+			switch x := v.(type) {
+			case *ssa.Const, *ssa.Global, *ssa.Function, *ssa.Builtin, *ssa.Parameter:
+				return
+			case *ssa.FieldAddr:
+				if derefNamed(x.X.Type()) == posT {
+					fieldsRead[st.Field(x.Field)] = true
+				}
+			case *ssa.Field:
+				if derefNamed(x.X.Type()) == posT {
+					fieldsRead[st.Field(x.Field)] = true
+				}
+			case *ssa.Call:
+				if cal := x.Call.StaticCallee(); cal != nil && c.P.IsRepoFunc(cal) {
+					for f := range readsOf(cal, 0) {
+						fieldsRead[f] = true
+					}
+				}
+			}
+			// a colour-typed component of a placement
+			if fld, ok := v.(*ssa.Field); ok {
+				if sn := namedOf(fld.X.Type()); sn != nil {
+					if ss, ok := sn.Underlying().(*types.Struct); ok && ss.NumFields() == 3 && isColourType(ss.Field(fld.Field).Type()) {
+						colourDep = true
+					}
+				}
+			}
+			if fa, ok := v.(*ssa.FieldAddr); ok {
+				if sn := derefNamed(fa.X.Type()); sn != nil && sn != posT {
+					if ss, ok := sn.Underlying().(*types.Struct); ok && isColourType(ss.Field(fa.Field).Type()) {
+						colourDep = true
+					}
+				}
+			}
+			if ins, ok := v.(ssa.Instruction); ok {
+				for _, op := range ins.Operands(nil) {
+					if op != nil && *op != nil {
+						walk(*op)
+					}
+				}
+			}
+		}
+		walk(iff.Cond)
+		good := (occ != nil && fieldsRead[occ]) || !colourDep
+		r.Check(good, rule, "NewPosition's duplicate test sees pieces of both colours", c.pos(iff.Pos()), "", "the test that rejects a placement selects the board it looks at by the new piece's own colour and never reads the all-pieces occupancy: a piece of the other colour on the square goes unnoticed ('K6༩q7/8/8/8/8/8/8/7k w - - 0 1' decodes to two pieces on a8, re-encodes to an empty a8)")
+	}
+	if n == 0 {
+		r.Fail(rule, "NewPosition's duplicate test sees pieces of both colours", c.pos(np.Pos()), "", "NewPosition has no branch that rejects a placement")
+	}
+}
+
+func isColourType(t types.Type) bool {
+	n, ok := t.(*types.Named)
+	return ok && core.ObjName(n.Obj()) == "Color"
 }
